@@ -416,6 +416,42 @@ ADDENDA = {
             "date; none for a bare time)."),
 }
 
+ADDENDA2 = {
+    "C04": ("", " '#' comment bodies include ones that end in what a value could end in "
+            "(a time, a date, a radix or exponent prefix, an open bracket); corpus labels "
+            "are re-laid out with the harness's own tokenizer."),
+    "C05": ("; loaders also built with substitute container classes (same class for "
+            "groups and objects, subclasses of each other)",
+            " Faults added later: NUL, an end keyword of the wrong kind, a doubled units "
+            "opener, empty item slots."),
+    "C06": ("", " A long_flat shard loads flat sets and sequences of 500-5000 items (closed, "
+            "cut off, with units, of strings) under every configuration."),
+    "C09": ("", " Labels with a byte order mark, loads from OS pipes, a fixed set of labels "
+            "and tails under every hand-over way."),
+    "C11": ("", " Containers of 30-70 pairs and EmptyValueAtLine placeholder values (what "
+            "the default loader puts in for a missing value) are part of the domain."),
+    "C12": ("", " Encoders are also constructed the way a caller does who passes only a "
+            "decoder or only a grammar; Decimal values (special values included)."),
+    "C13": ("; other dialects writing long statements between the calls; one-shot iterator "
+            "values; fresh-process shards: every case of these runs in a fork of a process "
+            "that has imported pvl and done nothing else, so that the first call of a case "
+            "is the first thing the library does in its process", ""),
+    "C15": ("", " Lone carriage returns before the character; the oracle accepts either "
+            "definition of a line (LF; CR LF | CR | LF) if lineno and colno use the same."),
+    "C16": ("", " CR-only texts with dash continuations and empty values; a fixed list of "
+            "encode specifications (failing pointer statements, symbol strings) in every "
+            "history."),
+    "C18": ("", " Substitute quantity classes include one that refuses some units and one "
+            "that is false at magnitude zero; a parser may be kept while other parsers are "
+            "built and used."),
+    "C19": ("", " Plain repeated pvl.new.loads calls with edits below the top level between "
+            "them; texts that start with a byte order mark or have names that are not in "
+            "Unicode NFC."),
+}
+for _k, (_a, _b) in ADDENDA2.items():
+    _o = ADDENDA.get(_k, ("", ""))
+    ADDENDA[_k] = (_o[0] + _a, _o[1] + _b)
+
 
 def main():
     props = [json.loads(l) for l in open(os.path.join(HERE, "properties.jsonl"))]
